@@ -60,7 +60,8 @@ type Case struct {
 	Acts      []Act     `json:"acts"`
 }
 
-var hostNames = []string{"reg-a.test", "reg-b.example", "reg-c.invalid", "hub.localdomain"}
+// the third registry shares its host name with the first and differs in the port
+var hostNames = []string{"reg-a.test", "reg-b.example", "reg-a.test:5001", "hub.localdomain:5000"}
 var realmNames = []string{"auth-x.test", "auth-y.example"}
 var scopePool = []string{"repository:app:pull", "repository:app:push", "repository:app:pull,push", "repository:lib/base:pull", "repository:app:*", "registry:catalog:*", "repository:app:push,pull", "repository:app:delete"}
 
@@ -97,7 +98,15 @@ func genCase(t *rapid.T) Case {
 			r.Enforce = rapid.IntRange(0, 2).Draw(t, "enforce") != 0
 		}
 		if rapid.IntRange(0, 4).Draw(t, "redirect") == 0 {
-			r.Redirect = hostNames[(i+1)%n]
+			// (net/http keeps the Authorization header on a redirect to the same host
+			// name on another port; whether that is "another host" is not for this
+			// check to decide: redirects go to a different host name)
+			for j := 1; j < n; j++ {
+				if cand := hostNames[(i+j)%n]; hostOnly(cand) != hostOnly(r.Host) {
+					r.Redirect = cand
+					break
+				}
+			}
 		}
 		if rapid.IntRange(0, 5).Draw(t, "switch") == 0 {
 			r.Scheme2 = rapid.SampledFrom([]string{"basic", "bearer"}).Draw(t, "scheme2")
@@ -215,6 +224,13 @@ func canon(scopes []string) []string {
 	return out
 }
 
+func hostOnly(h string) string {
+	if i := strings.IndexByte(h, ':'); i >= 0 {
+		return h[:i]
+	}
+	return h
+}
+
 // required is the scope a request needs at a scope-enforcing registry.
 func required(path, method string) string {
 	switch {
@@ -324,7 +340,7 @@ type world struct {
 	viol            []string
 }
 
-func user(h string) string { return "user-" + h }
+func user(h string) string { return "user-" + strings.ReplaceAll(h, ":", "_") } // no colon in a Basic user name
 func pw(h string) string   { return "PW~" + h + "~7f3a" }
 func rtok(h string) string { return "RT~" + h + "~91bc" }
 func atok(h string) string { return "AT~" + h + "~55de" }
@@ -536,6 +552,16 @@ func (w *world) checkConfinement() *vt.Fail {
 		if strings.HasPrefix(sr.auth, "Basic ") {
 			if b, err := base64.StdEncoding.DecodeString(strings.TrimPrefix(sr.auth, "Basic ")); err == nil {
 				texts = append(texts, string(b))
+			}
+		}
+		if strings.HasPrefix(sr.auth, "Bearer ") {
+			// something else dressed up as a bearer token (e.g. cached Basic credentials)
+			tk := strings.TrimPrefix(sr.auth, "Bearer ")
+			if b, err := base64.StdEncoding.DecodeString(tk); err == nil {
+				texts = append(texts, string(b))
+			}
+			if !strings.HasPrefix(tk, "TK~") && !strings.HasPrefix(tk, "AT~") {
+				return vt.Failf("C16/unknown-token", "request %d to %s presents as bearer token something that is neither a token minted by a token service nor a configured access token: %q", i, sr.host, tk)
 			}
 		}
 		if uq, err := url.QueryUnescape(sr.body); err == nil {
